@@ -43,3 +43,183 @@ pub fn any_filter_rank() -> u8 {
     kani::assume(r <= 5);
     r
 }
+
+// ---------------------------------------------------------------- recording collectors
+
+use core::sync::atomic::{AtomicU64, AtomicU8, AtomicUsize, Ordering};
+use tracing_core::{span, Collect, Event, Interest, Metadata};
+
+/// id of the collector that was last asked anything (0 = none of the recording collectors)
+pub static LAST: AtomicU8 = AtomicU8::new(0);
+
+/// A light recording collector. Its filter answers are plain fields so a harness can make them symbolic.
+pub struct Rec {
+    pub id: u8,
+    /// what `enabled()` answers
+    pub en: AtomicU8,
+    /// what `register_callsite` answers: 0 never, 1 sometimes, 2 always
+    pub interest: AtomicU8,
+    /// `max_level_hint`: 0..=5 filter rank, 6 = None
+    pub hint: AtomicU8,
+    pub asked: AtomicUsize,
+    pub events: AtomicUsize,
+    pub new_spans: AtomicUsize,
+    pub enters: AtomicUsize,
+    pub exits: AtomicUsize,
+    pub clones: AtomicUsize,
+    pub closes: AtomicUsize,
+    pub records: AtomicUsize,
+    pub follows: AtomicUsize,
+    pub registered: AtomicUsize,
+    pub next_id: AtomicU64,
+    /// simulated thread of the last enter / exit
+    pub last_enter_thread: AtomicUsize,
+    pub last_exit_thread: AtomicUsize,
+    pub last_id: AtomicU64,
+}
+
+impl Rec {
+    pub const fn new(id: u8) -> Self {
+        Rec {
+            id,
+            en: AtomicU8::new(1),
+            interest: AtomicU8::new(1),
+            hint: AtomicU8::new(6),
+            asked: AtomicUsize::new(0),
+            events: AtomicUsize::new(0),
+            new_spans: AtomicUsize::new(0),
+            enters: AtomicUsize::new(0),
+            exits: AtomicUsize::new(0),
+            clones: AtomicUsize::new(0),
+            closes: AtomicUsize::new(0),
+            records: AtomicUsize::new(0),
+            follows: AtomicUsize::new(0),
+            registered: AtomicUsize::new(0),
+            next_id: AtomicU64::new(1),
+            last_enter_thread: AtomicUsize::new(99),
+            last_exit_thread: AtomicUsize::new(99),
+            last_id: AtomicU64::new(0),
+        }
+    }
+    pub fn total_calls(&self) -> usize {
+        self.asked.load(Ordering::Relaxed)
+            + self.events.load(Ordering::Relaxed)
+            + self.new_spans.load(Ordering::Relaxed)
+            + self.enters.load(Ordering::Relaxed)
+            + self.exits.load(Ordering::Relaxed)
+            + self.clones.load(Ordering::Relaxed)
+            + self.closes.load(Ordering::Relaxed)
+            + self.records.load(Ordering::Relaxed)
+            + self.follows.load(Ordering::Relaxed)
+    }
+}
+
+fn bump(a: &AtomicUsize) {
+    a.store(a.load(Ordering::Relaxed) + 1, Ordering::Relaxed);
+}
+
+impl Collect for Rec {
+    fn register_callsite(&self, _: &'static Metadata<'static>) -> Interest {
+        bump(&self.registered);
+        match self.interest.load(Ordering::Relaxed) {
+            0 => Interest::never(),
+            1 => Interest::sometimes(),
+            _ => Interest::always(),
+        }
+    }
+    fn enabled(&self, _: &Metadata<'_>) -> bool {
+        LAST.store(self.id, Ordering::Relaxed);
+        bump(&self.asked);
+        self.en.load(Ordering::Relaxed) != 0
+    }
+    fn max_level_hint(&self) -> Option<LevelFilter> {
+        let h = self.hint.load(Ordering::Relaxed);
+        if h >= 6 { None } else { Some(filter(h)) }
+    }
+    fn new_span(&self, _: &span::Attributes<'_>) -> span::Id {
+        LAST.store(self.id, Ordering::Relaxed);
+        bump(&self.new_spans);
+        let id = self.next_id.load(Ordering::Relaxed);
+        self.next_id.store(id + 1, Ordering::Relaxed);
+        span::Id::from_u64(id)
+    }
+    fn record(&self, _: &span::Id, _: &span::Record<'_>) {
+        bump(&self.records);
+    }
+    fn record_follows_from(&self, _: &span::Id, _: &span::Id) {
+        bump(&self.follows);
+    }
+    fn event(&self, _: &Event<'_>) {
+        LAST.store(self.id, Ordering::Relaxed);
+        bump(&self.events);
+    }
+    fn enter(&self, id: &span::Id) {
+        bump(&self.enters);
+        self.last_enter_thread.store(tracing_core::__verif::thread(), Ordering::Relaxed);
+        self.last_id.store(id.into_u64(), Ordering::Relaxed);
+    }
+    fn exit(&self, id: &span::Id) {
+        bump(&self.exits);
+        self.last_exit_thread.store(tracing_core::__verif::thread(), Ordering::Relaxed);
+        self.last_id.store(id.into_u64(), Ordering::Relaxed);
+    }
+    fn clone_span(&self, id: &span::Id) -> span::Id {
+        bump(&self.clones);
+        id.clone()
+    }
+    fn try_close(&self, _: span::Id) -> bool {
+        bump(&self.closes);
+        false
+    }
+    fn current_span(&self) -> span::Current {
+        span::Current::unknown()
+    }
+}
+
+pub static A: Rec = Rec::new(1);
+pub static B: Rec = Rec::new(2);
+pub static C: Rec = Rec::new(3);
+
+/// A metadata value for probing which collector is current.
+pub struct ProbeCallsite;
+pub static PROBE_CS: ProbeCallsite = ProbeCallsite;
+pub static PROBE_META: Metadata<'static> = tracing_core::metadata! {
+    name: "probe",
+    target: "vk",
+    level: Level::INFO,
+    fields: &[],
+    callsite: &PROBE_CS,
+    kind: tracing_core::metadata::Kind::EVENT
+};
+impl tracing_core::Callsite for ProbeCallsite {
+    fn set_interest(&self, _: Interest) {}
+    fn metadata(&self) -> &Metadata<'_> {
+        &PROBE_META
+    }
+}
+
+/// Which recording collector does an emission on the current simulated thread reach? (0 = none / no-op)
+pub fn who_default() -> u8 {
+    LAST.store(0, Ordering::Relaxed);
+    tracing_core::dispatch::get_default(|d| {
+        d.enabled(&PROBE_META);
+    });
+    LAST.load(Ordering::Relaxed)
+}
+
+/// Same through `get_current` (the span-creation path). `None` = re-entrancy guard refused.
+pub fn who_current() -> Option<u8> {
+    LAST.store(0, Ordering::Relaxed);
+    tracing_core::dispatch::get_current(|d| {
+        d.enabled(&PROBE_META);
+    })
+    .map(|_| LAST.load(Ordering::Relaxed))
+}
+
+/// Same through `Dispatch::default()` (what `Span::new` / `Instrument::with_current_collector` capture).
+pub fn who_cloned() -> u8 {
+    LAST.store(0, Ordering::Relaxed);
+    let d = tracing_core::Dispatch::default();
+    d.enabled(&PROBE_META);
+    LAST.load(Ordering::Relaxed)
+}
